@@ -71,7 +71,7 @@ PROPS = {
         ],
     },
     "C06": {
-        "units": ["cer"], "kani_complete": [], "kani_bounded_quick": [], "kani_bounded_thorough": [],
+        "units": ["cer", "dbg"], "kani_complete": [], "kani_bounded_quick": [], "kani_bounded_thorough": [],
         "design_ref": "DESIGN.md section 5 / C06",
         "not_covered": [
             "non-interference over every serialisation (CBOR, JSON, Debug, hex, base64): not a functional contract; "
